@@ -251,11 +251,134 @@ def verify_split_gpg(ctx, real):
     ctx.solve()
 
 
+# ------------------------------------------------------------------------------------------------
+# P-02e  the field-collecting loop of Deb822._internal_parser against a recursive specification over the payload lines.
+# Line filtering (comments, armor) and decoding are opaque functions here (their own contracts / lemmas are above); the regex
+# tests and group values are the same uninterpreted applications in code and specification; every `self[key] = value` is
+# recorded in a ghost list `self.assigned`.
+PAIR = ("tuple", ["str", "str"])
+
+
+def flush(curkey, content):
+    """the pending field, if any, as a list of (key, value) assignments"""
+    if curkey:
+        return [(the(curkey), content)]
+    return []
+
+
+def collect(ls, curkey, content):
+    """the assignments the parser makes for the payload lines ls when (curkey, content) is the field collected so far"""
+    if len(ls) == 0:
+        return flush(curkey, content)
+    line = decoded(ls[0])
+    if single_m(line):
+        return flush(curkey, content) + collect(ls[1:], single_key(line), single_data(line))
+    if multi_m(line):
+        return flush(curkey, content) + collect(ls[1:], multi_key(line), "")
+    if multidata_m(line):
+        return collect(ls[1:], curkey, content + "\n" + line)
+    return collect(ls[1:], curkey, content)
+
+
+def payload(seq):
+    return []       # opaque: what gpg_stripped_paragraph(_skip_useless_lines(seq)) returns
+
+
+def useful(seq):
+    return []       # opaque: what _skip_useless_lines(seq) yields
+
+
+def decoded(b):
+    return ""       # opaque: self.decoder.decode(b)
+
+
+class SkipUselessAbs(Contract):
+    target = MOD + ":Deb822._skip_useless_lines"
+    modular = True
+    returns = ("list", "bytes")
+    ensures = ("result == useful(sequence)",)
+
+
+class GpgStrippedAbs(Contract):
+    target = MOD + ":Deb822.gpg_stripped_paragraph"
+    modular = True
+    returns = ("list", "bytes")
+    ensures = ("result == payload(sequence)",)
+    raises = {"EOFError": ()}
+    raises_modifies = {"EOFError": ()}
+
+
+class DecodeAbs(Contract):
+    target = MOD + ":_AutoDecoder.decode"
+    modular = True
+    returns = "str"
+    ensures = ("result == decoded(value)",)
+
+
+class SetItemAbs(Contract):
+    """every assignment is recorded (what a recorded assignment does to the mapping is C08 / C09's business)"""
+    target = MOD + ":Deb822.__setitem__"
+    modular = True
+    modifies = ("self.assigned",)
+    ensures = ("self.assigned == old(self.assigned) + [(the(key), value)]",)
+
+
+class InternalParser(Contract):
+    target = MOD + ":Deb822._internal_parser"
+    modular = False
+    modifies = ("self.assigned",)
+    ensures = ("self.assigned == old(self.assigned) + collect(payload(useful(sequence)), None, '')",)
+    raises = {"EOFError": ()}
+    raises_modifies = {"EOFError": ()}
+    loops = {0: LoopSpec(invariants=("0 <= li and li <= len(payload(useful(sequence)))",
+                                     "self.assigned + collect(payload(useful(sequence))[li:], curkey, content) == "
+                                     "old(self.assigned) + collect(payload(useful(sequence)), None, '')"),
+                         index="li", modifies=("self.assigned",),
+                         var_types={"linebytes": "bytes", "line": "str", "m": "objnone", "curkey": ("opt", "str"), "content": "str"})}
+
+    def setup(self, ex):
+        from vf.pyvc.values import VObj
+        assigned = fresh(("list", PAIR), "assigned")
+        dec = VObj("_AutoDecoder", {}, "decoder")
+        me = VObj("Deb822", {"assigned": assigned, "decoder": dec}, "self")
+        return {"self": me, "sequence": fresh(("list", "bytes"), "sequence"), "fields": NONE, "strict": NONE}
+
+
+def verify_internal_parser(ctx, real):
+    D = real.Deb822
+    sl = SpecLib()
+    w = World(sl)
+
+    def test(pat):
+        return VFunc("builtin", "re_test", fn=lambda ex, a, kw, pat=pat: VBool(ex.truth(sl.re_match(ex, pat, a[0], "match"))))
+
+    def group(pat, name):
+        def f(ex, a, kw):
+            mo = sl.re_match(ex, pat, a[0], "match")
+            mo = mo.val if hasattr(mo, "val") else mo
+            v = sl.re_group(ex, mo, pat.groupindex[name])
+            return v.val if hasattr(v, "isnone") else v
+        return VFunc("builtin", "re_group_of", fn=f)
+    w.spec_env["the"] = VFunc("builtin", "the", fn=lambda ex, a, kw: a[0].val if hasattr(a[0], "isnone") else a[0])   # value of a non-None optional
+    w.spec_env.update(single_m=test(D._single), multi_m=test(D._multi), multidata_m=test(D._multidata),
+                      single_key=group(D._single, "key"), single_data=group(D._single, "data"), multi_key=group(D._multi, "key"))
+    w.spec_func(payload, rec=dict(args=["list:bytes"], ret=("list", "bytes"), opaque=True))
+    w.spec_func(useful, rec=dict(args=["list:bytes"], ret=("list", "bytes"), opaque=True))
+    w.spec_func(decoded, rec=dict(args=["bytes"], ret="str", opaque=True))
+    w.spec_func(flush)
+    w.spec_func(collect, rec=dict(args=["list:bytes", "opt:str", "str"], ret=("list", PAIR)))
+    for c in (SkipUselessAbs(), GpgStrippedAbs(), DecodeAbs(), SetItemAbs()):
+        w.add_contract(c)
+    verify_contracts(ctx, w, [InternalParser()], {})
+    ctx.solve()
+
+
 def run(ctx):
     mod = extract.load(MOD)
     real = mod.real()
     regex_lemmas(ctx, real)
     verify_split_gpg(ctx, real)
+    verify_internal_parser(ctx, real)
     for q in ("Deb822._internal_parser", "Deb822._skip_useless_lines", "Deb822.split_gpg_and_payload", "Deb822._dump_format",
               "Deb822.iter_paragraphs", "Deb822._gpg_stripped_paragraph"):
         node, _ = mod.lookup(q)
@@ -328,7 +451,10 @@ def run(ctx):
     ctx.explanation = ("PROVED for all lines (SMT on the real pattern objects): every dumped 'Key: first' line matches _single and its "
                        "groups are exactly the key and the first line; every dumped 'Key:' line matches _multi (not _single) with the key "
                        "as group; continuation lines never start a field and are kept by _multidata; an encoded field line is never "
-                       "taken for a PGP armor line, a paragraph separator or an initial blank line; split_gpg_and_payload, from its real AST, returns exactly the lines (CR / LF stripped) as payload - nothing taken for armor, nothing cut off - for every sequence of lines none of which matches the armor pattern or the separator pattern in force (loop invariant over the line index; both parser settings). NOT proved: the field-collecting loop of _internal_parser, "
+                       "taken for a PGP armor line, a paragraph separator or an initial blank line; split_gpg_and_payload, from its real AST, returns exactly the lines (CR / LF stripped) as payload - nothing taken for armor, nothing cut off - for every sequence of lines none of which matches the armor pattern or the separator pattern in force (loop invariant over the line index; both parser settings). ALSO PROVED: the field-collecting loop of _internal_parser makes exactly the assignments of a recursive "
+                       "specification over the payload lines (one per field, in line order; a pending field is flushed by the next field "
+                       "line and at the end; continuation lines are appended verbatim; other lines are skipped), relative to opaque line "
+                       "filtering / decoding. NOT proved: "
                        "_skip_useless_lines, the six input forms and iter_paragraphs - BOUNDED part (see module docstring).")
     ctx.assumptions += ["capture lemmas quantify over every way the pattern can match (all-paths semantics of the regex); re reports one "
                         "of them - the priority order of backtracking is not modelled and not needed",
